@@ -58,6 +58,7 @@ LINESEPS = ['\x0b', '\x0c', '\x1c', '\x1d', '\x1e', '\x85', '\u2028', '\u2029']
 
 def vclass(s):
     if s is None: return 'missing'
+    if s == '': return 'empty string'
     if s == '?': return 'qmark'
     if any(c in s for c in LINESEPS): return 'line-boundary character'
     if '\\' in s: return 'backslash'
@@ -148,16 +149,30 @@ def _canon(x):
     return x
 
 
+def observe_row(r, sparse):
+    """Everything one returned row shows, through EVERY access path: iteration, index and header name (dense) /
+    items() and row[key] (sparse).  The paths must agree (arff_compare / csv_compare check it)."""
+    if sparse:
+        items = {k: _canon(x) for k, x in r.items()}
+        return (items, r.missing, None, {k: _canon(r[k]) for k in r.keys()}, None)
+    hdr = dict(r.headers)
+    return ([_canon(x) for x in r], r.missing, hdr, [_canon(r[i]) for i in range(len(r))], {h: _canon(r[h]) for h in hdr})
+
+
+def _paths_agree(i, row, sparse):
+    vals, _, hdr, byidx, byname = row
+    if sparse:
+        if byidx != vals: return ('access paths disagree: items() vs row[key]', f'row {i}: items() {vals!r}, row[key] {byidx!r}')
+        return None
+    if byidx != vals: return ('access paths disagree: list(row) vs row[i]', f'row {i}: list(row) {vals!r}, row[i] {byidx!r}')
+    if any(0 <= j < len(vals) and byname[h] != vals[j] for h, j in hdr.items()):
+        return ('access paths disagree: list(row) vs row[name]', f'row {i}: list(row) {vals!r}, row[name] {byname!r}')
+    return None
+
+
 def arff_observe(lines, sparse):
     """Materialise everything the real reader returns (raises whatever coba raises)."""
-    rows = list(ArffReader().filter(iter(lines)))
-    out = []
-    for r in rows:
-        if sparse:
-            out.append(({k: _canon(x) for k, x in r.items()}, r.missing, None))
-        else:
-            out.append(([_canon(x) for x in r], r.missing, dict(r.headers)))
-    return out
+    return [observe_row(r, sparse) for r in ArffReader().filter(iter(lines))]
 
 
 def levels_ok(decl, got, sparse):
@@ -209,7 +224,10 @@ def arff_compare(cols, rows, sparse, got):
     names, exp = arff_expected(cols, rows, sparse)
     if len(got) != len(exp):
         return ('row count differs', f'{len(exp)} rows written, {len(got)} read')
-    for i, ((ev, em), (gv, gm, gh)) in enumerate(zip(exp, got)):
+    for i, ((ev, em), grow) in enumerate(zip(exp, got)):
+        gv, gm, gh = grow[:3]
+        bad = _paths_agree(i, grow, sparse)
+        if bad: return bad
         if not sparse:
             if gh != {n: j for j, n in enumerate(names)}:
                 return ('column names differ', f'written {names}, read {gh}')
@@ -255,13 +273,16 @@ def csv_lines(names, rows, header, v):
 def csv_observe(lines, header, v):
     kw = {'delimiter': '\t'} if v['delim'] == '\t' else {}
     rows = list(CsvReader(has_header=header, **kw).filter(iter(lines)))
-    return [(list(r), dict(r.headers) if header else None) for r in rows]
+    return [(list(r), dict(r.headers) if header else None, [r[i] for i in range(len(r))], {h: r[h] for h in r.headers} if header else None) for r in rows]
 
 
 def csv_compare(names, rows, header, got):
     exp = [['' if x is None else x for x in r] for r in rows]
     if len(got) != len(exp): return ('row count differs', f'{len(exp)} rows written, {len(got)} read')
-    for i, (e, (g, h)) in enumerate(zip(exp, got)):
+    for i, (e, (g, h, byidx, byname)) in enumerate(zip(exp, got)):
+        if byidx != g: return ('access paths disagree: list(row) vs row[i]', f'row {i}: list(row) {g!r}, row[i] {byidx!r}')
+        if header and any(0 <= j < len(g) and byname[n] != g[j] for n, j in h.items()):
+            return ('access paths disagree: list(row) vs row[name]', f'row {i}: list(row) {g!r}, row[name] {byname!r}')
         if header and h != {n: j for j, n in enumerate(names)}: return ('column names differ', f'written {names}, read {h}')
         if len(g) != len(e): return ('row width differs', f'row {i}: written {e}, read {g}')
         for j, (a, b) in enumerate(zip(e, g)):
